@@ -112,6 +112,7 @@ pub fn explore<M: Machine>(m: &M, lim: &Limits, acc: &mut Acc) {
     let mut viols: Vec<(u32, M::Op, StepErr)> = vec![];
     let mut pruned_outside = 0u64;
     let mut depth_bound_hit = false;
+    let debug_keys = std::env::var("VERIF_DEBUG_KEYS").is_ok();
     while !frontier.is_empty() {
         if lim.max_depth.map_or(false, |d| depth >= d) {
             depth_bound_hit = true;
@@ -135,6 +136,8 @@ pub fn explore<M: Machine>(m: &M, lim: &Limits, acc: &mut Acc) {
         let chunk = (frontier.len() + nthreads - 1) / nthreads;
         type Out<S, Op> = (Vec<(u32, Op, Box<[u8]>, Option<S>, bool)>, Vec<(u32, Op, StepErr)>, u64);
         let vis = &visited;
+        let aborted = std::sync::atomic::AtomicBool::new(false);
+        let aborted = &aborted;
         let results: Vec<Out<M::S, M::Op>> = std::thread::scope(|sc| {
             let hs: Vec<_> = frontier
                 .chunks(chunk)
@@ -143,7 +146,12 @@ pub fn explore<M: Machine>(m: &M, lim: &Limits, acc: &mut Acc) {
                         let mut out = vec![];
                         let mut vs = vec![];
                         let mut tr = 0u64;
-                        for (id, s) in ch {
+                        for (k, (id, s)) in ch.iter().enumerate() {
+                            // wall cap inside a level: stop expanding (the level is then reported as incomplete)
+                            if k % 64 == 0 && t0.elapsed() > lim.wall + lim.wall / 2 {
+                                aborted.store(true, std::sync::atomic::Ordering::Relaxed);
+                                break;
+                            }
                             for op in m.ops(s) {
                                 let mut s2 = s.clone();
                                 tr += 1;
@@ -165,6 +173,10 @@ pub fn explore<M: Machine>(m: &M, lim: &Limits, acc: &mut Acc) {
                 .collect();
             hs.into_iter().map(|h| h.join().expect("explorer worker panicked (harness bug)")).collect()
         });
+        if aborted.load(std::sync::atomic::Ordering::Relaxed) {
+            exhaustive = false;
+            acc.caps_hit.push(format!("{}: wall cap hit inside depth {} ({} states so far); that level is incomplete", name, depth, recs.len()));
+        }
         let mut next = vec![];
         for (out, vs, tr) in results {
             transitions += tr;
@@ -174,6 +186,9 @@ pub fn explore<M: Machine>(m: &M, lim: &Limits, acc: &mut Acc) {
                     continue;
                 }
                 let id = recs.len() as u32;
+                if debug_keys && id % 100_000 == 99_999 {
+                    eprintln!("[debug key #{} depth {}] {}", id, depth, String::from_utf8_lossy(&k));
+                }
                 visited.insert(k, id);
                 recs.push(NodeRec { parent: pid, init: 0, op: Some(op) });
                 if nt {
